@@ -28,13 +28,14 @@ type RS struct {
 	ZeroEvery int
 	ZeroReads int
 
-	Requested  int64 // sum of len(p) over Read calls issued before end of input
-	EOFReads   int   // Read calls issued at end of input (they deliver nothing)
-	Delivered  int64
-	Reads      int
-	ShortReads int
-	Seeks      int
-	MaxPos     int64
+	Requested      int64 // sum of len(p) over Read calls issued before end of input
+	RequestedAtEOF int64 // sum of len(p) over Read calls issued at end of input (they deliver nothing)
+	EOFReads       int   // Read calls issued at end of input (they deliver nothing)
+	Delivered      int64
+	Reads          int
+	ShortReads     int
+	Seeks          int
+	MaxPos         int64
 }
 
 func NewRS(b []byte) *RS { return &RS{Data: b, Limit: -1} }
@@ -64,6 +65,7 @@ func (r *RS) Read(p []byte) (int, error) {
 	lim := r.limit()
 	if r.Pos >= lim {
 		r.EOFReads++
+		r.RequestedAtEOF += int64(len(p))
 		return 0, r.endErr()
 	}
 	if r.ZeroEvery > 0 && r.Reads%r.ZeroEvery == 0 {
